@@ -545,4 +545,7 @@ func (ms *Modules) ClearEntryCache() {
 	ms.entryCacheMu.Lock()
 	defer ms.entryCacheMu.Unlock()
 	ms.entryCache = map[Node]*Entry{}
+	// What was merged was merged into the entries dropped here: a module
+	// converted again must receive the nodes of its submodules again.
+	ms.mergedSubmodule = map[string]bool{}
 }
